@@ -170,6 +170,15 @@ def r3(cx, rec):
                 calls = [(bb, f.expr_call(bb)) for bb in mirq.real_calls(f) if bb in reg and f.expr_call(bb)[1].startswith(ENC + '::add_')]
                 names = [c[1].split('::')[-1] for bb, c in calls]
                 rec.site(f, tgt, '%s: %s -> %s' % (name, v, names))
+                for bb, c in calls:
+                    recv = c[2][0]
+                    while recv[0] == 'call' and recv[1].startswith(ENC + '::add_'):
+                        recv = recv[2][0]
+                    rinit = mirq.init_of(recv)
+                    okr = recv[0] in ('var', 'mvar') and rinit[0] == 'call' and rinit[1].endswith('BEncoder::new')
+                    rec.need(okr, 'element-receiver/%s/%s' % (name, v), f, bb,
+                             'an element of kind %s is appended to %s instead of the inner encoder created for this container: '
+                             'its bytes land outside their position in the sequence' % (v, show(recv)[:40]))
                 exp = (['add_byte_str'] if name == 'add_dict' else []) + [want[v]]
                 rec.need(names == exp, 'variant-encoder/%s/%s' % (name, v), f, tgt, '%s encodes %s with %s (expected %s)' % (name, v, names, exp))
                 for bb, c in calls:
@@ -190,3 +199,9 @@ def r3(cx, rec):
     ext = [show(ai.expr_call(bb)[2][1]) for bb in mirq.real_calls(ai) if ai.expr_call(bb)[4].get('name') == 'extend_from_slice']
     rec.site(ai, None, 'add_int emits %s' % [s[-50:] for s in ext])
     rec.need(len(ext) == 3 and 'to_string(value)' in ext[1], 'int-decimal', ai, None, 'integer is not emitted as i<to_string(value)>e')
+
+
+@TABLE.rule('4', 'K7', 'the decoder\'s rejection guards are exactly the confirmed ones (shared with C16): nothing the encoder can emit is refused', floor=11)
+def r4(cx, rec):
+    from rules import C16
+    C16.r2(cx, rec)
